@@ -104,13 +104,17 @@ func TestVerifBoundedC38Adversarial(t *testing.T) {
 			cases++
 			base := t.TempDir()
 			outside := filepath.Join(base, "outside")
-			os.MkdirAll(filepath.Join(outside, "vdir"), 0o700)
+			// (the objects below vdir carry the names archive entries use below r/d, so that a path
+			// that resolves through a link put in place of r/d lands on something that exists)
+			os.MkdirAll(filepath.Join(outside, "vdir", "e"), 0o700)
+			os.WriteFile(filepath.Join(outside, "vdir", "f"), []byte("secret too"), 0o600)
 			os.WriteFile(filepath.Join(outside, "victim"), []byte("secret"), 0o600)
 			old := time.Unix(1500000000, 0)
-			for _, p := range []string{filepath.Join(outside, "victim"), filepath.Join(outside, "vdir"), outside} {
+			for _, p := range []string{filepath.Join(outside, "victim"), filepath.Join(outside, "vdir", "e"), filepath.Join(outside, "vdir", "f"), filepath.Join(outside, "vdir"), outside} {
 				os.Chtimes(p, old, old)
 			}
 			os.Chmod(filepath.Join(outside, "vdir"), 0o700)
+			os.Chmod(filepath.Join(outside, "vdir", "e"), 0o700)
 			before := verifC38Snapshot(outside)
 			target := filepath.Join(base, "target")
 			os.MkdirAll(target, 0o755)
